@@ -13,6 +13,7 @@ import (
 	"encoding/json"
 	"fmt"
 	"sort"
+	"strings"
 
 	stk "github.com/JesseCoretta/go-stackage"
 )
@@ -748,6 +749,12 @@ func genCond(ctx *Ctx, emit func(any, string)) {
 			emit(CondInput{Ops: cloneOps([]COp{{Op: "cond", Kw: &KwArg{K: "str", S: "person"}, Opr: &OpDesc{Builtin: 1}, Ex: &Node{T: "str", S: text}},
 				{Op: "encap", Enc: enc}, {Op: "paren", T: 1}})}, "exhaustive")
 		}
+	}
+	// size is no limit: keyword and expression of 3000 bytes
+	{
+		long := strings.Repeat("key ", 750)
+		emit(CondInput{Ops: cloneOps([]COp{{Op: "cond", Kw: &KwArg{K: "str", S: long}, Opr: &OpDesc{Builtin: 1}, Ex: &Node{T: "str", S: long}},
+			{Op: "encap", Enc: []EncArg{{K: "str", L: []string{"\""}}}}, {Op: "setkw", Kw: &KwArg{K: "str", S: "k" + long}}, {Op: "nopad", T: 1}})}, "exhaustive")
 	}
 	// Stacks that carry an error (native, alias, pointer to alias) offered while no-nesting is on
 	for _, a := range []string{"", "aval", "aptr", "avalstr", "aptrstr"} {
